@@ -1386,6 +1386,8 @@ pub fn execute(h: &History, mode: Mode, ctx: &mut Ctx) -> Verdict {
         ElemKind::Tr => run::<Tr>(h, mode, ctx),
         ElemKind::Bx => run::<Bx>(h, mode, ctx),
         ElemKind::Zs => run::<Zs>(h, mode, ctx),
+        ElemKind::U128 => run::<u128>(h, mode, ctx),
+        ElemKind::B3 => run::<crate::elem::B3>(h, mode, ctx),
     }
 }
 
